@@ -180,3 +180,14 @@ def _(e, c, a, raw): return e.deref(a[0]).payload
 @model('re:^<(chrono::)?NaiveDate as (std::fmt::|core::fmt::)?Display>::fmt$', 're:^<(chrono::format::)?DelayedFormat<.*> as (std::fmt::|core::fmt::)?Display>::fmt$')
 def _(e, c, a, raw):
     e.deref(a[1]).buf.extend(e.deref(a[0]).payload.chars); return OK(UNIT)
+
+
+# ---- chrono::DateTime<FixedOffset> (native, concretised) -----------------------------------------------------------
+@model('DateTime::parse_from_rfc2822', 'chrono::DateTime::parse_from_rfc2822', 're:^DateTime::<.*>::parse_from_rfc2822$')
+def _(e, c, a, raw):
+    s = concretize_str(e, S(e, a[0]))
+    r = native(e, {'fn': 'dt_parse', 's': s})
+    if not r['ok']: return ERR(Agg('ChronoParseError', []))
+    return OK(Opaque('DateTime', mkstr(r['text'])))
+@model('DateTime::to_rfc2822', 're:^DateTime::<.*>::to_rfc2822$')
+def _(e, c, a, raw): return e.deref(a[0]).payload
